@@ -11,6 +11,26 @@ pub type Findings = Vec<(String, String)>;
 
 /// Tolerance on lengths measured with the space's own distance (step limits, edge lengths,
 /// speed law): pure rounding, plus the documented SO3 allowances.
+/// Largest weighted |coordinate| of the R^n components of the given states: lengths measured
+/// between states far from the origin carry rounding proportional to the coordinates, not to
+/// the length.
+pub fn mag(spec: &crate::spec::Spec, states: &[&[f64]]) -> f64 {
+    let mut m = 0.0f64;
+    for v in states {
+        let mut o = 0;
+        for (ci, c) in spec.comps.iter().enumerate() {
+            let w = c.kind.width();
+            if let CK::R { .. } = c.kind {
+                for x in &v[o..o + w] {
+                    m = m.max(spec.eff_weight(ci).max(1.0) * x.abs());
+                }
+            }
+            o += w;
+        }
+    }
+    m
+}
+
 pub fn len_tol<K: Kit>(kit: &K, scale: f64) -> f64 {
     let spec = kit.spec();
     let mut t = dist_tol(spec, scale);
@@ -108,7 +128,8 @@ pub fn path_steps<K: Kit>(kit: &K, sp: &K::SP, params: &PParams, path: &[Vec<f64
     let limit = params.step_limit();
     let mut f = vec![];
     let mut worst = f64::NEG_INFINITY;
-    let tol = len_tol(kit, limit);
+    let all: Vec<&[f64]> = path.iter().map(|p| p.as_slice()).collect();
+    let tol = len_tol(kit, limit.max(4.0 * mag(kit.spec(), &all)));
     for i in 0..path.len().saturating_sub(1) {
         let a = kit.unflat(&path[i]);
         let b = kit.unflat(&path[i + 1]);
@@ -325,7 +346,7 @@ pub fn path_coverage<K: Kit>(kit: &K, sp: &K::SP, eval: &WorldEval<K>, acc: &Acc
         let a = kit.unflat(&path[i]);
         let b = kit.unflat(&path[i + 1]);
         let (gap, n, l) = acc.max_gap_full(kit, sp, &a, &b);
-        let tol = len_tol(kit, l) + 1e-9 * (1.0 + l);
+        let tol = len_tol(kit, l.max(4.0 * mag(kit.spec(), &[&path[i], &path[i + 1]]))) + 1e-9 * (1.0 + l);
         if lvs > 0.0 && l > 0.0 {
             *worst_gap_rel = worst_gap_rel.max(gap / lvs);
         }
